@@ -25,8 +25,8 @@ NewTx == [okKeys |-> {}, seenKeys |-> {}, cneKeys |-> {}, ops |-> <<>>, primarie
 T(s) == Get(tx, s, NewTx)
 Bad(rule, detail) == PrintT(<<"MISMATCH", pos, rule, detail>>)
 Check(cond, rule, detail) == IF cond THEN TRUE ELSE Bad(rule, detail)
-Lost(e) == e.fault \in {"drop_req", "drop_resp", "crash_before", "crash_after"}
-Delivered(e) == e.executed /\ e.resp.kind = "ok" /\ e.fault \notin {"drop_resp", "crash_after"}
+Lost(e) == e.fault \in {"drop_req", "drop_resp", "crash_before", "crash_after", "undetermined"}
+Delivered(e) == e.executed /\ e.resp.kind = "ok" /\ e.fault \notin {"drop_resp", "crash_after", "undetermined"}
 RespOK(e) == e.executed /\ e.resp.kind = "ok" /\ e.resp.errs = <<>>
 MutKeys(ms) == {ms[i].k : i \in 1..Len(ms)}
 BufVal(buf, k) == buf[CHOOSE i \in 1..Len(buf) : buf[i].k = k].val
